@@ -4,7 +4,8 @@ import hashlib, json, os, shutil, subprocess, sys, tempfile, time
 
 VERIF = os.path.dirname(os.path.dirname(os.path.abspath(__file__)))
 REPO = os.environ.get("OQ3_REPO", "/repo")
-CACHE = os.path.join(VERIF, ".cache")
+CACHE = os.environ.get("OQ3_CACHE") or os.path.join(VERIF, ".cache")
+SELFTEST_OUT = os.environ.get("OQ3_SELFTEST_OUT")
 
 sys.path.insert(0, os.path.join(VERIF, "analysis"))
 from kernel import Program, CRATES  # noqa: E402
@@ -99,6 +100,17 @@ class Result:
             self.ob("ANCHOR", npath, False, "", f"anchor function {npath} not found in the current tree (renamed/removed): rule instances keyed on it cannot be evaluated; failing closed")
         return b
 
+    def premises(self, prog, rule, specs, why):
+        """The argument of this property leans on obligations of another rule module ("<PID>:<rule prefix>"):
+        re-evaluate them on this tree and fail here too when one of them fails (other than a listed known
+        finding of that property, which is reported there)."""
+        import inventory
+        bad = inventory.premise_failures(prog, self.pid, specs)
+        for k in bad:
+            self.ob(rule, k, False, "", f"premise of {self.pid} violated ({why})")
+        if not bad:
+            self.ob(rule, "+".join(specs), True, "", f"premises hold on this tree ({why})")
+
     def floor(self, name, count, minimum):
         self.counters[name] = count
         self.ob("FLOOR", name, count >= minimum, "", f"{name}: found {count}, confirmed floor {minimum}")
@@ -126,6 +138,11 @@ def finish(res, t0, th, cache_hit, prog_stats, seed):
                 kf.append((o, known_keys[o["key"]]))
             else:
                 viol.append(o)
+    if SELFTEST_OUT:
+        # evaluation of a scratch variant on behalf of the thorough tier's self-test: report keys only
+        with open(SELFTEST_OUT, "w") as f:
+            json.dump({"violations": sorted({o["key"] for o in viol})}, f)
+        return 1 if viol else 0
     outdir = os.path.join(VERIF, "out", res.pid)
     shutil.rmtree(outdir, ignore_errors=True)
     os.makedirs(outdir, exist_ok=True)
@@ -191,6 +208,10 @@ def finish(res, t0, th, cache_hit, prog_stats, seed):
 
 
 def fail_no_facts(pid, tier, t0, th, err, seed):
+    if SELFTEST_OUT:
+        with open(SELFTEST_OUT, "w") as f:
+            json.dump({"violations": ["BUILD"], "build_error": True, "err": (err or "")[-400:]}, f)
+        return 1
     outdir = os.path.join(VERIF, "out", pid)
     os.makedirs(outdir, exist_ok=True)
     p = os.path.join(outdir, "build_error.json")
@@ -239,6 +260,13 @@ def main(argv):
                 return 0 if o["ok"] else 1
         print("obligation no longer exists on this tree:", want)
         return 1
+    if tier == "thorough" and not SELFTEST_OUT:
+        import selftest
+        known = {k["key"] for k in load_known() if k.get("property") == pid and k.get("status") == "known"}
+        base = {o["key"] for o in res.obls if not o["ok"]} - set()
+        st = selftest.run(pid, REPO, base)
+        res.info["selftest"] = st
+        print(f"[{pid}] self-test of the rules on {st['cases']} recorded breaking changes (scratch copies of the current tree): detected {st['detected']}" + (f", missed {st['missed']}" if st.get("missed") else "") + (f", not applicable {st['stale']}" if st.get("stale") else ""))
     return finish(res, t0, th, hit, stats, seed)
 
 
